@@ -97,3 +97,60 @@ def gen_unit(rng, typ, payload_rate=0.4, nkeys=None):
     rng.shuffle(lines)
     text = "[%s]\n%s%s\n" % (sec, base, "\n".join(lines))
     return text, used
+
+
+# ---------------------------------------------------------------- adversarial units and unit sets
+WILD = ["", "x", "a b", "yes", "no", "0", "1", "auto", "keep-id", "manual", "bogus", "/abs/p", "rel/p", "./dot", "../up", "%t/x", "a:b", "a:b:c", "a:b:c:d", ":x", "x:",
+        "n.network", "v.volume", "i.image", "b.build", "c.container", "p.pod", "missing.volume", "missing.network", "missing.image", "missing.pod", "other.pod",
+        "type=bind,source=./s,target=/t", "type=volume,source=v.volume,destination=/t", "type=image,source=i.image,dst=/t", "type=tmpfs,destination=/t", "source=/x", "type=bind,src=",
+        "type=a=b,x", "type=glob,source=/g*,target=/t", "http://u/x", "git://r", "github.com/o/r", "file", "unit", "yaml", "healthy", "oneshot", "notify", "simple", "mixed",
+        "control-group", "process", "65536", "-5", "99999999999", "1000", "80", "80-90/tcp", "bad port", '"q s"', "it's", "\\x41", "é", "UPPER", "k=v", "k=v w=x", "a/b", "registry", "local/x"]
+
+EXTRA_SERVICE = ["KillMode=mixed", "KillMode=control-group", "KillMode=process", "Type=oneshot", "Type=notify", "Type=simple", "SyslogIdentifier=me", "RemainAfterExit=no",
+                 "WorkingDirectory=/wd", "WorkingDirectory=", "Restart=always", "NotifyAccess=main", "Environment=X=1", "ExecStartPre=/bin/true", "KillMode="]
+
+
+def supported_keys(typ):
+    sec, table = docs.TYPES[typ]
+    return list(table) + ["ContainersConfModule", "GlobalArgs", "PodmanArgs", "ServiceName"]
+
+
+def gen_wild_unit(rng, typ, with_base=True):
+    sec = docs.TYPES[typ][0]
+    keys = supported_keys(typ)
+    lines = []
+    for _ in range(rng.choice([0, 1, 2, 3, 4, 6, 9])):
+        k = rng.choice(keys)
+        if rng.random() < 0.03:
+            k = rng.choice([k.lower(), k + "x", "Bogus", rng.choice(supported_keys(rng.choice(list(docs.TYPES))))])
+        vals = SPECIAL_VALUES.get(k, []) + WILD
+        lines.append("%s=%s" % (k, rng.choice(vals)))
+    text = "[%s]\n%s%s\n" % (sec, docs.MINIMAL[typ] if (with_base and rng.random() < 0.9) else "", "\n".join(lines))
+    if rng.random() < 0.5:
+        text += "[Service]\n" + "\n".join(rng.sample(EXTRA_SERVICE, rng.randint(1, 3))) + "\n"
+    if rng.random() < 0.3:
+        text += "[Unit]\nAfter=foo.service\nDescription=d\n"
+    if rng.random() < 0.2:
+        text += "[Quadlet]\nDefaultDependencies=%s\n" % rng.choice(["no", "yes", "false", "", "maybe"])
+    if rng.random() < 0.2:
+        text += "[Install]\nWantedBy=default.target\n"
+    return text
+
+
+STEMS = {"network": ["n"], "volume": ["v"], "image": ["i"], "build": ["b"], "container": ["c", "web", "tpl@", "inst@1"], "pod": ["p", "other"], "kube": ["k"]}
+
+
+def gen_unit_set(rng):
+    """a set of files (path, text) with references among them; file names unique"""
+    files = []
+    used = set()
+    for _ in range(rng.choice([1, 2, 3, 4, 6])):
+        typ = rng.choice(list(docs.TYPES))
+        stem = rng.choice(STEMS[typ])
+        name = "%s.%s" % (stem, typ)
+        if name in used:
+            continue
+        used.add(name)
+        files.append(("/d/" + name, gen_wild_unit(rng, typ)))
+    rng.shuffle(files)
+    return files
